@@ -58,8 +58,17 @@ def build(rec):
     world = scn['world']
     idx = spec_index(world)
     files, meta = W.render_world(world, scn.get('env', {}))
+    meta0 = meta
+    versions = {0: (idx, files, meta)}
     for e in rec['execs']:
         e['E'] = None
+        # (the files as they were on disk when this operation ran)
+        nrw = sum(1 for op in scn['ops'][:e['op'] or 0] if op['op'] == 'rewrite')
+        if nrw not in versions:
+            w2 = W.world_at(world, scn['ops'], e['op'])
+            f2, m2 = W.render_world(w2, scn.get('env', {}))
+            versions[nrw] = (spec_index(w2), f2, m2)
+        idx, files, meta = versions[nrw]
         if e['dtid'] not in idx:
             continue
         dt, mod = idx[e['dtid']]
@@ -107,7 +116,7 @@ def build(rec):
             # for the execution that replaced sys.stdout itself (not for later ones)
             E.silent.update(['stdout', 'verdict', 'hits', 'bindings', 'line'])
         e['E'] = E
-    return meta
+    return meta0
 
 
 def classify(e):
